@@ -95,6 +95,20 @@ def generate(rng, tier, rep):
             c['child_cwd'] = '/nonexistent/verif/dir'
         c['injected'] = where + '/' + how
         cases.append(c)
+    # something goes wrong in an early --repeat iteration only (a test that fails on a cold cache): the verdict is 'failed'
+    # whatever the later iterations do  (the run model has one outcome per test: only the verdict predicate is evaluated)
+    for i in range({'quick': 16, 'thorough': 160, 'search': 8}[tier]):
+        c = worldcase.gen_world(rng, faults=False, rich=False, opts=['--repeat', str(rng.choice([2, 3]))] + rng.choice([[], [], ['-j2']]))
+        for L in c['layers']:
+            if i % 4 == 1 and L['hooks'].get('tearDown'):
+                L['hooks']['tearDown'] = ['notimpl']          # later layers resumed in subprocesses
+        T = rng.choice(c['tests'])
+        T.pop('deco_skip', None)
+        T.pop('xf', None)
+        T['body'] = ['first_only', rng.choice(['fail', 'error'])]
+        c['tests'] = [x for x in c['tests'] if 'twin_of' not in x]
+        c['injected'] = 'first_iteration_only/' + T['body'][1]
+        cases.append(c)
     for c in cases:
         count_dist(rep, c)
         if c.get('injected'):
